@@ -23,7 +23,7 @@ sys.path.insert(0, os.path.join(VERIF, 'gen'))
 import nlgen
 from nlgen import Model, Rng
 
-PROP_MIN_THEOREMS = 30
+PROP_MIN_THEOREMS = 38
 
 # every type except cones / unary-encoding marker: natively accepted in run A
 BASE_ACCEPT = ['LinConRange', 'LinConLE', 'LinConEQ', 'LinConGE',
@@ -275,7 +275,7 @@ def lin_expr(rng, vs):
     terms = []
     for _ in range(k):
         j = idx.pop(rng.below(len(idx)))
-        c = F(rng.choice([1, 1, -1, 2, -2, 3, 1, -3, 5]), rng.choice([1, 1, 1, 2]))
+        c = F(rng.choice([1, 1, -1, 2, -2, 4, 1, -4, 8]), rng.choice([1, 1, 1, 2]))   # powers of two: rhs/coef stays exact in doubles
         terms.append(('*', ('n', c), ('v', j)) if c != 1 else ('v', j))
     e = terms[0]
     for t in terms[1:]:
@@ -420,7 +420,7 @@ def gen_case(rng, family):
         lo = F(rng.rint(-6, 6), rng.choice([1, 2]))
         pat = rng.below(5)
         lb, ub = [(lo, lo + rng.rint(1, 6)), (lo, None), (None, lo), (lo, lo), (lo, lo + 1)][pat]
-        lin = {x: F(rng.choice([1, -1, 2, 3, -2]), rng.choice([1, 1, 2])) for x in xs}
+        lin = {x: F(rng.choice([1, -1, 2, 3, -2, 5]), rng.choice([1, 1, 2])) for x in xs}
         if rng.chance(1, 3) and k >= 2:
             m.con(lb, ub, lin=lin, nl=('*', ('v', xs[0]), ('v', xs[1])))
         else:
@@ -440,7 +440,7 @@ def gen_case(rng, family):
     elif family == 'div':
         x = m.var(*rand_bounds(rng, 'any'))
         y = m.var(*rand_bounds(rng, 'cont'))
-        d = F(rng.choice([2, 4, -2, 8, 3, -5]))
+        d = F(rng.choice([2, 4, -2, 8, -4, 16]))
         # a division by a constant is folded by the flattener; keep the DivConstraint by a fixed variable
         z = m.var(d, d, False)
         embed_numeric(rng, m, ('/', ('v', x), ('v', z)), y)
@@ -466,7 +466,7 @@ def cvt_options(opts):
 
 def refusal_seen(r):
     """map a failed run to a refusal class"""
-    t = (r['err'] or '') + (r['out'] or '')
+    t = (r['err'] or '') + (r['out'] or '') + (r.get('sol') or '')   # with -AMPL the diagnostic is the .sol message (code 500)
     if 'cvt:bigM' in t or 'IndicatorInfBound' in t or 'Set bounds on variables' in t:
         return 'IndicatorInfBound'
     if 'context not implemented' in t or 'context\nnot implemented' in t:
